@@ -104,7 +104,7 @@ theorem loopMem_trivial (o : Oracle) (body : GStmt) : ∀ (n : Nat) (env : Env) 
     | _ => rfl
 
 /-- the body of one round at any fuel ≥ the fuel at which it is known to end -/
-theorem execFrom_ge (o : Oracle) (n m : Nat) (s : GStmt) (env : Env) (cs : Calls) (r : Res)
+theorem execFrom_ge_codec (o : Oracle) (n m : Nat) (s : GStmt) (env : Env) (cs : Calls) (r : Res)
     (h : execFrom o n s env cs = r) (hr : r.how ≠ .outOfFuel) (hm : n ≤ m) :
     execFrom o m s env cs = r := by
   rw [execFrom_mono o n m s env cs hm (by rw [h]; exact hr), h]
